@@ -1,9 +1,9 @@
 SPECIFICATION LiveSpec
 CONSTANTS
   Shapes <- MCShapes
-  ShapeNames = {"leaf", "branch2", "slot16"}
+  ShapeNames = {"branch2", "dupleaf"}
   Caps = {1}
-  Algos = {"double", "single"}
+  Algos = {"double"}
   FaultSets = {{"evict", "lose"}}
   Budgets = {1}
   InitDBs <- MCInitDBs
